@@ -262,8 +262,26 @@ fn probe_default(args: &Args) {
             "{}",
             Obj::new("emulate").int("sig", sig as i64).str("ctx", "normal").str("status", &st.text).raw("r", &kv_json(&st.report)).done()
         );
+        // emulation while ANOTHER terminating signal is blocked and pending (a program that keeps
+        // it for sigwait/signalfd): the emulated signal's own default action must still win
+        if (1..=64).contains(&sig) && sig != 32 && sig != 33 {
+            let other = if sig == libc::SIGUSR2 { libc::SIGUSR1 } else { libc::SIGUSR2 };
+            let st = fork_run(3000, || {
+                set_handler(other, libc::SIG_DFL, 0);
+                block(other);
+                unsafe { libc::raise(other) };
+                match signal_hook::low_level::emulate_default_handler(sig) {
+                    Ok(()) => 0,
+                    Err(_) => 3,
+                }
+            });
+            println!(
+                "{}",
+                Obj::new("emulate").int("sig", sig as i64).str("ctx", "other_pending").int("other", other as i64).str("status", &st.text).raw("r", &kv_json(&st.report)).done()
+            );
+        }
         // emulation with the signal blocked by the mask (outside a handler)
-        if (1..=64).contains(&sig) && args.flag("all") {
+        if (1..=64).contains(&sig) {
             let st = fork_run(3000, || {
                 block(sig);
                 match signal_hook::low_level::emulate_default_handler(sig) {
@@ -446,7 +464,7 @@ fn probe_reject(args: &Args) {
     let entries = [
         "registry_register", "registry_register_sigaction", "low_level_register", "flag_register",
         "flag_register_usize", "flag_conditional_shutdown", "flag_conditional_default",
-        "pipe_register", "pipe_register_raw", "signals_new", "add_signal",
+        "pipe_register", "pipe_register_raw", "signals_new", "signals_new_after_valid", "add_signal",
         "registry_register_signal_unchecked", "registry_register_unchecked",
     ];
     let nums: Vec<c_int> = if args.flag("all") {
@@ -461,6 +479,10 @@ fn probe_reject(args: &Args) {
         for entry in entries.iter() {
             for n in &nums {
                 let n = *n;
+                if *entry == "signals_new_after_valid" && premode != 1 {
+                    // needs a signal the library already handles, so that dispositions stay put
+                    continue;
+                }
                 let unchecked = entry.ends_with("unchecked");
                 if unchecked && [4, 8, 11].contains(&n) {
                     // would really take over SIGILL/SIGFPE/SIGSEGV: allowed, observed, then _exit
@@ -487,6 +509,8 @@ fn probe_reject(args: &Args) {
                         None
                     };
                     let before = dispositions();
+                    let reg_before = signal_hook_registry::verif::registry_content().0;
+                    let mut fds_before: Option<usize> = None;
                     let drops = Arc::new(AtomicUsize::new(0));
                     let flag = Arc::new(AtomicBool::new(false));
                     let usz = Arc::new(AtomicUsize::new(0));
@@ -562,6 +586,13 @@ fn probe_reject(args: &Args) {
                                 drop(probe);
                                 signal_hook::iterator::Signals::new(&[n]).map(|s| std::mem::forget(s))
                             }
+                            // a constructor that has already registered a valid signal (SIGUSR2,
+                            // in use by the process already) when it meets <n>
+                            "signals_new_after_valid" => {
+                                drop(probe);
+                                fds_before = Some(count_open_fds());
+                                signal_hook::iterator::Signals::new(&[libc::SIGUSR2, n]).map(|s| std::mem::forget(s))
+                            }
                             "add_signal" => {
                                 drop(probe);
                                 base_inst.as_ref().unwrap().add_signal(n)
@@ -576,6 +607,17 @@ fn probe_reject(args: &Args) {
                     };
                     let after = dispositions();
                     let changed = disp_diff(&before, &after);
+                    let reg_after = signal_hook_registry::verif::registry_content().0;
+                    // signals whose list of actions differs from before the call
+                    let mut reg_changed: Vec<c_int> = Vec::new();
+                    for s in 1..=64 {
+                        let a = reg_before.iter().find(|x| x.0 == s).map(|x| x.1.clone()).unwrap_or_default();
+                        let b = reg_after.iter().find(|x| x.0 == s).map(|x| x.1.clone()).unwrap_or_default();
+                        if a != b {
+                            reg_changed.push(s);
+                        }
+                    }
+                    let fds_delta = fds_before.map(|f| count_open_fds() as i64 - f as i64).unwrap_or(0);
                     // a rejected add must leave the instance working
                     let inst_ok = match base_inst {
                         Some(mut inst) => {
@@ -608,10 +650,12 @@ fn probe_reject(args: &Args) {
                     }))
                     .unwrap_or(false);
                     report(&format!(
-                        "class={};inst_ok={};changed={:?};drops={};flag_rc={};usz_rc={};fd_open={};fd_closes={};usable={};",
+                        "class={};inst_ok={};changed={:?};reg_changed={:?};fds_delta={};drops={};flag_rc={};usz_rc={};fd_open={};fd_closes={};usable={};",
                         class,
                         inst_ok,
                         changed,
+                        reg_changed,
+                        fds_delta,
                         drops.load(Ordering::SeqCst),
                         Arc::strong_count(&flag),
                         Arc::strong_count(&usz),
@@ -701,6 +745,34 @@ fn closes_of(fd: RawFd) -> usize {
         CLOSE_COUNTS[fd as usize].load(Ordering::SeqCst)
     } else {
         0
+    }
+}
+
+static TEARDOWN_VICTIM: AtomicUsize = AtomicUsize::new(0);
+static TEARDOWN_DROPS: AtomicUsize = AtomicUsize::new(0);
+static TEARDOWN_REUSED: AtomicUsize = AtomicUsize::new(0);
+
+#[derive(Debug)]
+struct TeardownWriteEnd(RawFd);
+
+impl AsRawFd for TeardownWriteEnd {
+    fn as_raw_fd(&self) -> RawFd {
+        self.0
+    }
+}
+
+impl Drop for TeardownWriteEnd {
+    fn drop(&mut self) {
+        TEARDOWN_DROPS.fetch_add(1, Ordering::SeqCst);
+        unsafe {
+            libc::close(self.0);
+            let victim = TEARDOWN_VICTIM.load(Ordering::SeqCst) as RawFd;
+            if libc::dup2(victim, self.0) == self.0 {
+                TEARDOWN_REUSED.store(1, Ordering::SeqCst);
+            }
+            // a signal arrives right now
+            libc::raise(libc::SIGUSR1);
+        }
     }
 }
 
@@ -859,6 +931,42 @@ fn probe_pipe(args: &Args) {
             );
         }
     }
+    // tear-down of an iterator instance: the write end must not be dropped (closed) while an
+    // action that writes to it is still registered. The write end is a user type whose Drop closes
+    // the descriptor, lets an unrelated socket take the same number and delivers the signal.
+    for variant in ["instance_last", "handle_last"] {
+        let st = fork_run(8000, || {
+            use signal_hook::iterator::backend::SignalDelivery;
+            use signal_hook::iterator::exfiltrator::SignalOnly;
+            let (victim_read, victim_write) = std::os::unix::net::UnixStream::pair().unwrap();
+            TEARDOWN_VICTIM.store(victim_write.as_raw_fd() as usize, Ordering::SeqCst);
+            let (read, write) = std::os::unix::net::UnixStream::pair().unwrap();
+            let write = TeardownWriteEnd(write.into_raw_fd());
+            let sd = SignalDelivery::with_pipe(read, write, SignalOnly::default(), &[libc::SIGUSR1]).unwrap();
+            unsafe { libc::raise(libc::SIGUSR1) };
+            if variant == "handle_last" {
+                let h = sd.handle();
+                drop(sd);
+                drop(h);
+            } else {
+                let h = sd.handle();
+                drop(h);
+                drop(sd);
+            }
+            let stray = drain_count(victim_read.as_raw_fd());
+            report(&format!(
+                "drops={};reused={};stray={};",
+                TEARDOWN_DROPS.load(Ordering::SeqCst),
+                TEARDOWN_REUSED.load(Ordering::SeqCst),
+                stray
+            ));
+            0
+        });
+        println!(
+            "{}",
+            Obj::new("iter_teardown").str("variant", variant).str("status", &st.text).raw("r", &kv_json(&st.report)).done()
+        );
+    }
     // Signals::new default pipe, a long burst nobody reads
     {
         let burst = *bursts.iter().max().unwrap_or(&3) * 200;
@@ -979,6 +1087,10 @@ fn probe_signals(args: &Args) {
     }
 }
 
+fn count_open_fds() -> usize {
+    (0..256).filter(|fd| unsafe { libc::fcntl(*fd, libc::F_GETFD) } != -1).count()
+}
+
 enum AnySignals {
     Plain(signal_hook::iterator::Signals),
     Raw(signal_hook::iterator::SignalsInfo<signal_hook::iterator::exfiltrator::WithRawSiginfo>),
@@ -996,16 +1108,38 @@ fn run_history(hist: &str, raw: bool) {
         })
     }
     .unwrap();
+    let fds0 = count_open_fds();
     let mut inst: Option<AnySignals> = Some(if raw {
         AnySignals::Raw(SignalsInfo::<WithRawSiginfo>::new(&[libc::SIGUSR1]).unwrap())
     } else {
         AnySignals::Plain(Signals::new(&[libc::SIGUSR1]).unwrap())
     });
     let mut handles = Vec::new();
+    let mut others: Vec<AnySignals> = Vec::new();
     for tok in hist.split(',') {
         let (k, rest) = tok.split_at(1);
         let n: i64 = rest.parse().unwrap_or(0);
         match k {
+            // a second instance constructed with a valid signal first and <n> second: when <n> is
+            // refused (error or documented panic) the half-built instance must leave nothing behind
+            "N" => {
+                let r = catch_unwind(AssertUnwindSafe(|| {
+                    if raw {
+                        SignalsInfo::<WithRawSiginfo>::new(&[libc::SIGUSR2, n as c_int]).map(AnySignals::Raw)
+                    } else {
+                        Signals::new(&[libc::SIGUSR2, n as c_int]).map(AnySignals::Plain)
+                    }
+                }));
+                let class = match r {
+                    Ok(Ok(i)) => {
+                        others.push(i);
+                        "ok"
+                    }
+                    Ok(Err(_)) => "err",
+                    Err(_) => "panic",
+                };
+                report(&format!("N|{}|{}|[]|0;", n, class));
+            }
             "A" => {
                 let r = catch_unwind(AssertUnwindSafe(|| match inst.as_ref() {
                     Some(AnySignals::Plain(s)) => s.add_signal(n as c_int),
@@ -1058,8 +1192,10 @@ fn run_history(hist: &str, raw: bool) {
     let r = catch_unwind(AssertUnwindSafe(|| {
         handles.clear();
         drop(inst.take());
+        others.clear();
     }));
     report(if r.is_ok() { "end=ok;" } else { "end=panic;" });
+    report(&format!("fds_left={};", count_open_fds() as i64 - fds0 as i64));
     report(&format!("wit_unreg={};", signal_hook::low_level::unregister(wid) as u8));
     // the registry must be empty now for every signal the history touched
     #[allow(deprecated)]
